@@ -132,10 +132,10 @@ def check(tier):
         import random
         random.Random(common.seed()).shuffle(extra)
         sel += extra[:max(0, 96 - len(sel))]
-        hist_len, stress_runs = 2, 4
+        hist_len, stress_runs = 3, 4
     else:
         sel = list(scheds)
-        hist_len, stress_runs = 3, 32
+        hist_len, stress_runs = 4, 32
         sel += sampled_schedules(3, 150)[:300]
     rc, hout = common.run_tlc("ConverterHistory", "CONSTANTS MaxLen = %d NRuns = 0 NEvents = 0\nINIT HInit\nNEXT HNext\nINVARIANT EmitHistory\nCHECK_DEADLOCK FALSE\n" % hist_len)
     hists = list(common.tagged_lines(hout, "@H"))
